@@ -39,10 +39,23 @@
 (*            current config (the code: all clients share one *config);     *)
 (*            "at-connect": it reads the config of connection time.         *)
 (* Nodes = {}: connection age is not modelled (request parameter "any").    *)
+(* Config updates can be REFUSED: the validator insists on a threshold > 0, *)
+(* so a compression section without one ("bare": `enable: false` alone, or  *)
+(* `enable: true` alone) is answered with an error and nothing changes.     *)
+(* `asked` is the config the operator has been told is in force (the last   *)
+(* update that was acknowledged); reads are judged by it.                   *)
+(* BareUpdate = "refused": the code; "off-dropped": a bare `enable: false`  *)
+(*            is acknowledged and carried out as "no section at all".       *)
+(* Absolute sizes: besides its class relative to the threshold a value has  *)
+(* a size, 0 = near the threshold, otherwise the length in bytes of a large *)
+(* value (around the 64 KiB snappy block, 512 KiB, 1 MiB, several MiB);     *)
+(* large values are compressible ("comp2") or not ("incomp").               *)
+(* ReadLimit = 0: decompression hands back everything (the code); S > 0: a  *)
+(*            decompressed value is cut to its first S bytes.               *)
 (***************************************************************************)
 EXTENDS Naturals, Sequences, FiniteSets, TLC
 
-CONSTANTS Keys, MaxOps, MaxRedirects, FixOnce, MaxVals, HookDepth, OwnBytes, Nodes, ConnConfig
+CONSTANTS Keys, MaxOps, MaxRedirects, FixOnce, MaxVals, HookDepth, OwnBytes, Nodes, ConnConfig, BareUpdate, Sizes, ReadLimit
 
 \* value classes (relative to the configured threshold)
 \*  small  : shorter than the threshold                       -> never compressed
@@ -58,24 +71,27 @@ Depths == 0..MaxDepth
 
 \* the value positions of one write request
 ValSeqs == UNION {[1..n -> Classes] : n \in 1..MaxVals}
+\* ... and their sizes: a large value is compressible or incompressible
+SizeSeqs(vals) == {szs \in [1..Len(vals) -> Sizes] : \A i \in 1..Len(vals) : szs[i] > 0 => vals[i] \in {"comp2", "incomp"}}
 
 \* the connection a request is first sent over
 Via == IF Nodes = {} THEN {"any"} ELSE Nodes
 
 VARIABLES cfg,        \* current compression config of the service
+          asked,      \* the config the operator has been told is in force (last acknowledged update)
           conn,       \* conn[n]: config in force when the connection to node n was made
           everEnabled,
-          stored,     \* stored[k]: sequence of [cls, layers, ok] (one per value position) or <<>> if never written
+          stored,     \* stored[k]: sequence of [cls, layers, ok, size] (one per value position) or <<>> if never written
           lastRead,   \* result of the last read: largest number of layers left on a value handed to the client (0 = original)
           lastReadOk, \* ... and whether every value handed to the client stems from the bytes the filter produced
-          lastReadCfg,\* config that was in force at that read
+          lastReadCfg,\* config the operator had been told was in force at that read
           packedOff,  \* a write request was compressed although compression was not enabled at that moment
           ops
 
-vars == <<cfg, conn, everEnabled, stored, lastRead, lastReadOk, lastReadCfg, packedOff, ops>>
+vars == <<cfg, asked, conn, everEnabled, stored, lastRead, lastReadOk, lastReadCfg, packedOff, ops>>
 
 Init ==
-  /\ cfg \in Configs /\ everEnabled = (cfg = "enabled")
+  /\ cfg \in Configs /\ asked = cfg /\ everEnabled = (cfg = "enabled")
   /\ conn = [n \in Nodes |-> cfg]      \* every node is connected before the first config change
   /\ stored = [k \in Keys |-> <<>>] /\ lastRead = 0 /\ lastReadOk = TRUE /\ lastReadCfg = "absent" /\ packedOff = FALSE /\ ops = 0
 
@@ -94,18 +110,26 @@ Eff(n) == IF n = "any" \/ ConnConfig = "live" THEN cfg ELSE conn[n]
 
 SetConfig(c) ==
   /\ c # cfg /\ ops < MaxOps /\ ops' = ops + 1
-  /\ cfg' = c /\ everEnabled' = (everEnabled \/ c = "enabled")
+  /\ cfg' = c /\ asked' = c /\ everEnabled' = (everEnabled \/ c = "enabled")
   /\ UNCHANGED <<conn, stored, lastRead, lastReadOk, lastReadCfg, packedOff>>
+
+\* an update with a compression section that has no threshold (on: `enable: true` alone, ~on: `enable: false` alone)
+BareConfig(on) ==
+  /\ ops < MaxOps /\ ops' = ops + 1
+  /\ IF BareUpdate = "off-dropped" /\ ~on
+       THEN cfg' = "absent" /\ asked' = "disabled"        \* acknowledged as "switched off", carried out as "no section"
+       ELSE UNCHANGED <<cfg, asked>>                       \* refused with the validation error: nothing changes
+  /\ UNCHANGED <<conn, everEnabled, stored, lastRead, lastReadOk, lastReadCfg, packedOff>>
 
 \* the connection to node n breaks and is made again (under the current config)
 Reconnect(n) ==
   /\ conn[n] # cfg /\ ops < MaxOps /\ ops' = ops + 1
   /\ conn' = [conn EXCEPT ![n] = cfg]
-  /\ UNCHANGED <<cfg, everEnabled, stored, lastRead, lastReadOk, lastReadCfg, packedOff>>
+  /\ UNCHANGED <<cfg, asked, everEnabled, stored, lastRead, lastReadOk, lastReadCfg, packedOff>>
 
 \* a write request with the value positions vals whose request is sent 1 + r times (r redirections);
 \* busy = other values are compressed / decompressed by the proxy while this request is on its way
-Write(k, vals, r, busy, via) ==
+Write(k, vals, szs, r, busy, via) ==
   /\ ops < MaxOps /\ ops' = ops + 1
   /\ LET n == IF Eff(via) = "enabled" THEN (IF FixOnce THEN 1 ELSE 1 + r) ELSE 0
          layersOf(i) == Passes(vals[i], 0, n)
@@ -115,9 +139,9 @@ Write(k, vals, r, busy, via) ==
          lost(i) == /\ ~OwnBytes /\ layersOf(i) > 0
                     /\ \/ \E j \in (i + 1)..Len(vals) : taken(j)
                        \/ busy
-     IN /\ stored' = [stored EXCEPT ![k] = [i \in 1..Len(vals) |-> [cls |-> vals[i], layers |-> layersOf(i), ok |-> ~lost(i)]]]
+     IN /\ stored' = [stored EXCEPT ![k] = [i \in 1..Len(vals) |-> [cls |-> vals[i], layers |-> layersOf(i), ok |-> ~lost(i), size |-> szs[i]]]]
         /\ packedOff' = (packedOff \/ (cfg # "enabled" /\ \E i \in 1..Len(vals) : layersOf(i) > 0))
-  /\ UNCHANGED <<cfg, conn, everEnabled, lastRead, lastReadOk, lastReadCfg>>
+  /\ UNCHANGED <<cfg, asked, conn, everEnabled, lastRead, lastReadOk, lastReadCfg>>
 
 Max(S) == CHOOSE x \in S : \A y \in S : y <= x
 
@@ -127,15 +151,19 @@ Read(k, r, d, via) ==
   /\ stored[k] # <<>> /\ ops < MaxOps /\ ops' = ops + 1
   /\ LET hooks == IF Eff(via) = "absent" \/ d > HookDepth THEN 0 ELSE (IF FixOnce THEN 1 ELSE 1 + r)
          left(i) == IF hooks >= stored[k][i].layers THEN 0 ELSE stored[k][i].layers - hooks
+         \* a value that is decompressed on the way back comes out cut when it is longer than the limit
+         cut(i) == ReadLimit > 0 /\ stored[k][i].size > ReadLimit /\ hooks > 0 /\ stored[k][i].layers > 0
      IN /\ lastRead' = Max({left(i) : i \in 1..Len(stored[k])})
-        /\ lastReadOk' = \A i \in 1..Len(stored[k]) : stored[k][i].ok
-  /\ lastReadCfg' = cfg
-  /\ UNCHANGED <<cfg, conn, everEnabled, stored, packedOff>>
+        /\ lastReadOk' = \A i \in 1..Len(stored[k]) : stored[k][i].ok /\ ~cut(i)
+  /\ lastReadCfg' = asked
+  /\ UNCHANGED <<cfg, asked, conn, everEnabled, stored, packedOff>>
 
 Next ==
   \/ \E c \in Configs : SetConfig(c)
+  \/ \E on \in BOOLEAN : BareConfig(on)
   \/ \E n \in Nodes : Reconnect(n)
-  \/ \E k \in Keys, vals \in ValSeqs, r \in 0..MaxRedirects, busy \in BOOLEAN, via \in Via : Write(k, vals, r, busy, via)
+  \/ \E k \in Keys, vals \in ValSeqs, r \in 0..MaxRedirects, busy \in BOOLEAN, via \in Via :
+       \E szs \in SizeSeqs(vals) : Write(k, vals, szs, r, busy, via)
   \/ \E k \in Keys, r \in 0..MaxRedirects, d \in Depths, via \in Via : Read(k, r, d, via)
 
 Spec == Init /\ [][Next]_vars
@@ -143,7 +171,8 @@ Spec == Init /\ [][Next]_vars
 -----------------------------------------------------------------------------
 \* what reaches the backend is the original or ONE compression of it (header + stream that expands to the original)
 StoredForm == \A k \in Keys : \A i \in 1..Len(stored[k]) : stored[k][i].layers <= 1 /\ stored[k][i].ok
-\* a value read back through the proxy is the original, as long as a compression config (enabled or switched off) is present
+\* a value read back through the proxy is the original, as long as the operator has been told that a compression config
+\* (enabled or switched off) is in force
 ReadBack == lastReadCfg # "absent" => lastRead = 0 /\ lastReadOk
 \* nothing is ever compressed while compression is not enabled
 OnlyWhenEnabled == ~everEnabled => \A k \in Keys : \A i \in 1..Len(stored[k]) : stored[k][i].layers = 0
@@ -154,6 +183,8 @@ OffMeansOff == ~packedOff
 \* windows that must be reachable (checked as invariants that TLC must violate)
 NoNestedReadOfCompressed ==   \* a value stored compressed is read back inside a nested array while a config is present
   ~(\E k \in Keys : ops < MaxOps /\ cfg # "absent" /\ \E i \in 1..Len(stored[k]) : stored[k][i].layers > 0)
+NoLargeCompressedRead ==   \* a value of more than 512 KiB stored compressed can be read back
+  ~(\E k \in Keys : ops < MaxOps /\ asked # "absent" /\ \E i \in 1..Len(stored[k]) : stored[k][i].layers > 0 /\ stored[k][i].size > 524288)
 NoReadOverOlderConnection ==   \* a value stored compressed can be read over a connection made before the config became what it is
   ~(\E k \in Keys, n \in Nodes : ops < MaxOps /\ cfg # "absent" /\ conn[n] # cfg /\ \E i \in 1..Len(stored[k]) : stored[k][i].layers > 0)
 NoTwoCompressedInOneRequest ==
